@@ -167,6 +167,9 @@ PROPS['C20'] = _ev(['aws'], 'Unbounded proofs, on the real builder code of both 
 EK_NEG = {'crate': 'gneiss-mqtt', 'timeout': 900, 'jobs': 4, 'harnesses': [{'name': 'negotiated_settings_table', 'kind': 'complete', 'fn': 'build_negotiated_settings', 'expect_stub': False}]}
 PROPS['C07']['ek'] = [EK_NEG]
 PROPS['C14']['ek'] = [EK_NEG]
+EB_KEEPALIVE = {'name': 'keepalive', 'crate': 'gneiss-mqtt', 'module_dir': 'gneiss_mqtt', 'filters': ['keepalive::'], 'tests': ['keep_alive_holds_whatever_the_broker_sends'], 'timeout': 3000,
+                'bound': 'see BOUNDED line: K x 2 versions x 6 inbound QoS 0 schedules x 3 user publish schedules over 5K seconds'}
+PROPS['C14']['eb'] = [EB_KEEPALIVE]
 
 EB_ACK = {'name': 'acktimeout', 'crate': 'gneiss-mqtt', 'module_dir': 'gneiss_mqtt', 'filters': ['engine::ack_timeouts'], 'tests': ['ack_timeouts_fire_exactly_at_deadline'], 'timeout': 3000}
 PROPS['C18']['eb'].append(EB_ACK)
